@@ -82,6 +82,10 @@ PROGRAM_ERRORS = ("NameError", "UnboundLocalError", "RuntimeError",
 
 
 def src_value(kind, sid, i):
+  if kind == "zeros":          # silence first, then signed small values
+    return 0 if i < 4 + sid % 3 else (-1) ** i * (1 + (i * 7 + sid) % 5)
+  if kind == "alt":            # alternating sign, small magnitude
+    return (-1) ** (i + sid) * ((i * 3 + sid) % 4)
   if kind == "param":
     return 0.1 + ((sid * 3 + i) % 9) * 0.125
   if kind == "sel":
@@ -144,6 +148,8 @@ class C02(Property):
 
     def new_src(kind):
       sid = len(srcs) + 1
+      if kind == "num":        # value flavour: tagged, silence-first, signed
+        kind = W.weighted("flavour", [(6, "num"), (2, "zeros"), (2, "alt")])
       ln = None if W.chance("endless", 1, 3) else W.choose("slen", 25)
       srcs[str(sid)] = {"kind": kind, "len": ln}
       return sid
